@@ -170,6 +170,16 @@ def run(ctx: Ctx) -> None:
                 ctx.violation(f"extract_categorized_keys raises {type(ex).__name__}", {"s": s, "resolve": rp}, key=f"extract-str:{s}")
                 continue
             ctx.case(("extract-str", s, rp))
+            if not rp:
+                # without resolution the extract lists exactly what is written (whatever was parsed or resolved before)
+                lv = T.leaves(e)
+                written = {"pkg": {l[1] for l in lv if l[0] == "pkg"}, "time": {l[1] for l in lv if l[0] == "time"}}
+                for f in ("rc", "hint", "fc"):
+                    written[f] = {l[1] for l in lv if l[0] == "cond" and doc_cat(l[1]) == f}
+                if {f: set(v) for f, v in x.items()} != written:
+                    ctx.violation("the extract of an unresolved expression does not list exactly the keys that are written in it",
+                                  {"s": s, "packages_resolved_before": pk, "extract": x, "written": {f: sorted(v) for f, v in written.items()}}, key=f"extract-written:{s}")
+                    continue
             r = P.resolve(s, resolve_packages=rp, replace_time_conditions=rt)
             want = extract_dict(extract_categorized_keys_from_tree(r["lark"], sanitize=True))
             if canon_ties(x) != canon_ties(want):
